@@ -131,7 +131,7 @@ def replay(body):
 def run(ctx):
     rng = ctx.rng
     ctx.check_theorems()
-    ctx.check_generated(['qbin'])
+    ctx.check_generated(['qbin', 'qbindef'])
     # (K) model bins (exact rationals, the implementation's own radius map as input) vs implementation, pixel by pixel
     exprs, meta = [], []
     for k in range(ctx.n(40, 400)):
